@@ -1,6 +1,7 @@
 /- Lens-style lemmas on child / add / walkIdx / setSlot used by the Apply proofs (C08). -/
 import YtkModel.Diff
 import YtkProofs.Dom
+import YtkProofs.Lens
 
 namespace Ytk
 
@@ -14,7 +15,7 @@ theorem add_eq_of_parse {c b : String} {is : List Nat} (kvs : AMap Node) (v : No
   simp only [add, h]
   cases is <;> simp
 
-theorem walkIdx_none : ∀ (is : List Nat), is ≠ [] → walkIdx none is = none
+theorem walkIdx_none_of_ne : ∀ (is : List Nat), is ≠ [] → walkIdx none is = none
   | [], h => absurd rfl h
   | _ :: _, _ => rfl
 
@@ -35,14 +36,7 @@ theorem walkIdx_setSlot : ∀ (is : List Nat) (cur : Option Node) (v : Node),
     rw [key _ _ (by rw [length_padTo]; omega)]
     exact walkIdx_setSlot is _ v
 
-/-- `Child(name)` after `AddValue(name, v)` -/
-theorem child_add_self (kvs : AMap Node) (c : String) (v : Node) : child (add kvs c v) c = some v := by
-  rcases hp : parseSeg c with ⟨b, is⟩
-  rw [child_eq_of_parse _ hp, add_eq_of_parse _ _ hp]
-  by_cases h : is = []
-  · simp [h, AMap.get?_insert_self]
-  · simp only [h, if_false, AMap.get?_insert_self]
-    exact walkIdx_setSlot is _ v
+/- `child_add_self` (Child(name) after AddValue(name, v)) is YtkProofs/Lens.lean's -/
 
 /-- writing back what is already there changes nothing -/
 theorem setSlot_walkIdx_self : ∀ (is : List Nat) (x n : Node), walkIdx (some x) is = some n →
@@ -90,7 +84,7 @@ theorem add_child_self {kvs : AMap Node} (hs : AMap.Sorted kvs) {c : String} {n 
     exact AMap.insert_get?_self hs h
   · simp only [he, if_false] at h ⊢
     cases hb : AMap.get? kvs b with
-    | none => rw [hb, walkIdx_none is he] at h; cases h
+    | none => rw [hb, walkIdx_none_of_ne is he] at h; cases h
     | some x =>
       rw [hb] at h
       rw [setSlot_walkIdx_self is x n h]
